@@ -33,26 +33,12 @@ func InstrumentOgen(s *build.Scratch) (*rewrite.Stats, error) {
 		},
 		SimrtPath: SimrtPath, SimjxPath: SimjxPath,
 		R1: true, R2: true, R3: true, R5: true,
-		R7: RuntimePkg,
+		R7: func(string) bool { return true },
 	})
 	if err != nil {
 		return nil, build.Toolf("simrewrite: %v", err)
 	}
 	return st, nil
-}
-
-// RuntimePkg reports whether an ogen package is part of what generated code runs on at request time (as opposed
-// to the generator): these are the packages in which R7 makes synchronisation operations preemption points.
-func RuntimePkg(p string) bool {
-	const mod = "github.com/ogen-go/ogen/"
-	if !strings.HasPrefix(p, mod) {
-		return false
-	}
-	switch strings.SplitN(strings.TrimPrefix(p, mod), "/", 2)[0] {
-	case "http", "uri", "conv", "json", "validate", "ogenerrors", "middleware", "otelogen", "ogenregex":
-		return true
-	}
-	return false
 }
 
 // HarnessDir is the scratch module that holds the simulation harness.
